@@ -321,7 +321,8 @@ Definition resolve (st : rstate) (curdir : path) (req : zs) : rstate * res :=
       match cache_get (node_cache st0) nk with
       | Some m => (st0, ROk m)
       | None =>
-        let '(st1, r) := try_cands st0 (cands_node curdir req) in
+        (* loadNodeModules(modpath, start) works on the string start: the walk is a function of the rendered directory *)
+        let '(st1, r) := try_cands st0 (cands_node (parse (render curdir)) req) in
         match r with
         | ROk m => (with_node st1 (cache_set (node_cache st1) nk m), ROk m)           (* r.nodeModules[key] = module *)
         | other => (st1, other)
